@@ -44,6 +44,10 @@ def problems():
         ("min1", base(indicators=[ind_i], objectives=[{"kind": "MinimizeIndicator", "indicator": "i", "weight": 1}])),
         ("max1", base(indicators=[ind_j], objectives=[{"kind": "MaximizeIndicator", "indicator": "j", "weight": 1}])),
         ("makespan", base(objectives=[{"kind": "Makespan"}])),
+        # two objectives that agree: the Pareto front is a single point
+        ("agree2", base(indicators=[ind_i, {"id": "k", "kind": "FromExpr", "name": "e0", "expr": ["end", "t0"]}], objectives=[
+            {"kind": "MaximizeIndicator", "indicator": "i", "weight": 1},
+            {"kind": "MaximizeIndicator", "indicator": "k", "weight": 1}])),
         ("weighted2", base(indicators=[ind_i, ind_j], objectives=[
             {"kind": "MaximizeIndicator", "indicator": "i", "weight": 2},
             {"kind": "MaximizeIndicator", "indicator": "j", "weight": 1}])),
@@ -69,6 +73,7 @@ class Model:
         self.cur = None
         self.lenient = False
         self.excluded_any = False
+        self.solved_once = False
 
     def remaining(self):
         return self.T - self.E
@@ -185,7 +190,9 @@ def run_histories(case):
                         broken = True
                         break
                     legit = not rem
-                    if pareto and op == "S":
+                    if pareto and op == "S" and m.solved_once:
+                        # walking the Pareto front ends with a failure by design - once it has started: the FIRST
+                        # solve of a feasible problem has a first point to return, whatever was called before
                         legit = True
                     if m.lenient:
                         legit = True
@@ -214,6 +221,8 @@ def run_histories(case):
                         broken = True
                         break
                     m.cur = k
+                    if op == "S":
+                        m.solved_once = True
                 states.add((tuple(history[:pos + 1]), len(m.E)))
             acc.sigs.add(common.h([common.h(spec), cfg, history]))
             if acc.sample is None and not broken and any(t[2] == "solution" for t in trace):
